@@ -1,7 +1,7 @@
 #!/venv/bin/python
 """Re-run every filed seeded / harmless change against the current checks and rewrite its meta.json.
 
-usage: tools/reverify_all.py [seeded|benign|both] [--jobs N] [--only Cxx ...]
+usage: tools/reverify_all.py [seeded|benign|both] [--jobs N] [--only Cxx ...] [--skip Cyy ...]
 
 Changes are vetted in place (tools/file_seed.py / tools/file_benign.py on the filed directory).
 Checks of one lock group are never run concurrently against different trees (they share generated
@@ -49,7 +49,16 @@ def main():
     args = sys.argv[1:]
     which = args[0] if args and args[0] in ("seeded", "benign", "both") else "both"
     jobs_n = int(args[args.index("--jobs") + 1]) if "--jobs" in args else 6
-    only = set(args[args.index("--only") + 1:]) if "--only" in args else None
+    def opt(name):
+        if name not in args:
+            return None
+        out = []
+        for a in args[args.index(name) + 1:]:
+            if a.startswith("--"):
+                break
+            out.append(a)
+        return set(out)
+    only, skip = opt("--only"), opt("--skip") or set()
     jobs = []
     for kind in (["seeded", "benign"] if which == "both" else [which]):
         for d in sorted((VERIF / kind).iterdir()):
@@ -60,7 +69,11 @@ def main():
             also = [p for p in (meta.get("checks_run") or {}) if p != prop]
             if only and prop not in only:
                 continue
+            if skip & set([prop] + also):
+                continue
             jobs.append((kind, d, prop, also))
+    # interleave the properties so that the pool is not queued up behind one lock
+    jobs.sort(key=lambda j: (j[0], j[1].name.split("-")[1], j[2]))
     with ThreadPoolExecutor(jobs_n) as ex:
         for name, line in ex.map(run, jobs):
             print(name, line[:400], flush=True)
